@@ -386,4 +386,68 @@ Together these are necessary conditions for byte-identical output under repetiti
         ctx.fail_closed("C11.order", "anchor not found: Validator::validate");
     }
     trailing_trivia(m, ctx, "C11.comments");
+    module_boundary(m, ctx);
+}
+
+
+/// C11.modules: "permuting modules inside a source" — `asn_spec` parses the modules of a source one after the other with
+/// `asn_module`; what a module is must not depend on what follows it in the source. No production reachable from `asn_module`
+/// may anchor on the *end of the input* (`eof`, `all_consuming`, a `many_till(.., eof)`): such a parser reads through the
+/// modules behind the current one (an ENCODING-CONTROL section that runs "to the END at the end of the input" swallows them).
+/// `rest` is accepted only in the line-comment parser (a comment that the input ends in).
+fn module_boundary(m: &Model, ctx: &mut Ctx) {
+    use std::collections::BTreeSet;
+    let rule = "C11.modules";
+    let lexer: Vec<&crate::model::FnInfo> = m.fns.iter().filter(|f| f.krate == "rasn-compiler" && f.module.starts_with("lexer") && !f.module.contains("tests")).collect();
+    let Some(root) = lexer.iter().find(|f| f.name == "asn_module") else {
+        ctx.fail_closed(rule, "anchor not found: lexer::asn_module");
+        return;
+    };
+    let global = |names: &[String]| -> Vec<String> { names.iter().filter(|n| ["eof", "all_consuming", "rest", "rest_len"].contains(&n.as_str())).cloned().collect() };
+    // the classifier recognises the construct it is written for
+    {
+        let probe: syn::Block = syn::parse_quote!({ recognize(many_till(anychar, peek(terminated(end, eof)))).parse(input) });
+        let mut names = model::invoked_names(&probe);
+        struct Paths { out: Vec<String> }
+        impl model::DeepCb for Paths { fn expr(&mut self, e: &syn::Expr) { if let syn::Expr::Path(p) = e { if let Some(s) = p.path.segments.last() { self.out.push(s.ident.to_string()); } } } }
+        let mut ps = Paths { out: vec![] };
+        model::deep_walk_block(&probe, &mut ps);
+        names.extend(ps.out);
+        if global(&names).is_empty() {
+            ctx.fail_closed(rule, "self-check: `many_till(anychar, peek(terminated(end, eof)))` is not recognised as anchoring on the end of the input");
+            return;
+        }
+    }
+    let mut seen: BTreeSet<String> = BTreeSet::new();
+    let mut work = vec![root.name.clone()];
+    let mut n = 0;
+    while let Some(name) = work.pop() {
+        if !seen.insert(name.clone()) {
+            continue;
+        }
+        for f in lexer.iter().filter(|f| f.name == name) {
+            n += 1;
+            let mut names = model::invoked_names(&f.block);
+            struct Paths { out: Vec<String> }
+            impl model::DeepCb for Paths { fn expr(&mut self, e: &syn::Expr) { if let syn::Expr::Path(p) = e { if let Some(s) = p.path.segments.last() { self.out.push(s.ident.to_string()); } } } }
+            let mut ps = Paths { out: vec![] };
+            model::deep_walk_block(&f.block, &mut ps);
+            names.extend(ps.out);
+            for g in global(&names) {
+                ctx.oblige(rule, &format!("{}:{}", f.name, g), true);
+                let comment_rest = g == "rest" && f.name.contains("comment");
+                if !comment_rest {
+                    ctx.violate(rule, &format!("end-of-input-anchor:{}", f.name), &f.file, f.line,
+                        &format!("`{}` — reachable from asn_module, the parser of *one* module — uses `{}`: it anchors on the end of the whole input, so what it consumes depends on the modules that follow in the same source (two modules in one source give different results in the two orders)", f.name, g));
+                }
+            }
+            for callee in names {
+                if lexer.iter().any(|g| g.name == callee) && !seen.contains(&callee) {
+                    work.push(callee);
+                }
+            }
+        }
+    }
+    ctx.oblige_n("C11.modules/productions-below-asn_module", n);
+    ctx.floor("C11.modules/productions-below-asn_module", n, 100);
 }
